@@ -60,6 +60,29 @@ func C10(c *core.Ctx) {
 	if c.HasViolation() || c.Expired() {
 		return
 	}
+	// what is kept of a session must survive being overwritten in the incoming ring:
+	// 24 KiB of the client's own traffic between its subscriptions and its end
+	if c.NShards <= 1 || c.Shard == 0 {
+		for _, end := range []Action{{Kind: "disconnect", Client: "X"}, {Kind: "cut", Client: "X"}} {
+			hist := []Action{px("X", "a", false), sub("X", 1, "t/1", 1), sub("X", 2, "t/2", 2)}
+			hist = append(hist, flood("X")...)
+			hist = append(hist, ops[17], end, ops[17], px("X", "a", false), ops[17], ops[18], unsub("X", 3, "t/1"), ops[17])
+			fs := &HistSpec{Name: "sessions-flooded", Comps: comps, Prefix: []Action{px("W", "w", true)}}
+			r := fs.RunHistory(hist, false)
+			c.Rep.Evaluations++
+			c.Rep.Executions++
+			c.Rep.States++
+			c.Rep.Nontrivial++
+			c.Rep.Transitions += int64(r.Steps)
+			if r.Violation != "" {
+				rr := fs.RunHistory(hist, true)
+				if c.Violate("C10 sessions-flooded :: "+violClass(r.Violation), core.Replay{Scenario: "sessions-flooded: subscriptions, 24 KiB of the client's own traffic, " + end.String() + ", resumption", Message: r.Violation, Log: tailS(rr.Trace, 30), Crash: rr.Crash}) {
+					return
+				}
+			}
+		}
+		c.Rep.Scenarios++
+	}
 	c10sched(c)
 }
 
